@@ -793,3 +793,71 @@ def replay_bounded_calls():
 
 def obligations_c17():
     return [Ob('O17.6-bounded-trait-calls', 'a trait method called through a bound resolves to the implementation for the type of each receiver', ob_bounded_trait_calls, ('quick', 'thorough'), 5, {})]
+
+# ----------------------------------------------------------------------------- O7.9 an instantiated generic definition gets ITS OWN arguments in every field, also after a field that instantiates another generic
+def ob_instance_fields(r, tier, seed):
+    W = e2.fresh_world(CRATES); tt = W.tt; TY = tt.find_adt(['tast', 'Ty'], 'compiler'); W.step_limit = 400000
+    ED = tt.find_adt(['env', 'EnumDef'], 'compiler'); SD = tt.find_adt(['env', 'StructDef'], 'compiler'); TI = tt.find_adt(['tast', 'TastIdent'], 'compiler')
+    CE = tt.find_adt(['core', 'Expr'], 'compiler'); CF = tt.find_adt(['core', 'Fn'], 'compiler'); CFILE = tt.find_adt(['core', 'File'], 'compiler'); PR = tt.find_adt(['common', 'Prim'], 'compiler')
+    GE = tt.find_adt(['env', 'GlobalTypeEnv'], 'compiler'); TEV = tt.find_adt(['env', 'TypeEnv'], 'compiler'); ME = tt.find_adt(['mono', 'GlobalMonoEnv'], 'compiler')
+    r.bounds = ('the generic enum Opt[T] { Non, Som(T) }, the generic struct P[T] { a: <inner>, b: T, c: T } with <inner> (solver decision) one of Opt[bool], Opt[T], P-free int32, Opt[Opt[string]], '
+                'and the non-generic struct H { f: P[X] } with X one of int32 / string / Opt[int32]; mono::mono on a program whose main does nothing')
+    r.assumptions = ['names::ty_compact replaced by an injective stand-in', 'oracle: the monomorphic definition generated for P[X] has the fields b and c of exactly the type X (collapsed), whatever the field a instantiates before them - the parameter names of two generic definitions may coincide']
+    def ident(n): return Agg(TI.key, 0, [mkstr(n)])
+    W.stubs['ty_compact'] = lambda ex, a: mkstr(json.dumps(shape(ex.deref(a[0]), TY), sort_keys=True).replace(' ', ''))
+    T = lambda n, *f: Agg(TY.key, TY.vindex(n), list(f))
+    app = lambda base, kind, arg: T('TApp', mkbox(T(kind, mkstr(base))), PyVec([arg]))
+    tparam = lambda n: T('TParam', mkstr(n))
+    def fld(adt, agg, name): return agg.fields[[f[0] for f in adt.variants[0].fields].index(name)]
+    INNER = {'Opt[bool]': lambda: app('Opt', 'TEnum', T('TBool')), 'Opt[T]': lambda: app('Opt', 'TEnum', tparam('T')), 'int32': lambda: T('TInt32'), 'Opt[Opt[string]]': lambda: app('Opt', 'TEnum', app('Opt', 'TEnum', T('TString')))}
+    ARG = {'int32': lambda: T('TInt32'), 'string': lambda: T('TString'), 'Opt[int32]': lambda: app('Opt', 'TEnum', T('TInt32'))}
+    def entry(ex):
+        ik = ex.choose([(True, k) for k in INNER]); ak = ex.choose([(True, k) for k in ARG])
+        genv = ex.call('env::GlobalTypeEnv::new_empty', [])
+        tenv = fld(GE, genv, 'type_env'); enums = fld(TEV, tenv, 'enums'); structs = fld(TEV, tenv, 'structs')
+        enums.keys.append(ident('Opt')); enums.vals.append(Agg(ED.key, 0, [ident('Opt'), PyVec([ident('T')]), PyVec([Agg('tuple', 0, [ident('Non'), PyVec([])]), Agg('tuple', 0, [ident('Som'), PyVec([tparam('T')])])])]))
+        structs.keys.append(ident('P')); structs.vals.append(Agg(SD.key, 0, [ident('P'), PyVec([ident('T')]), PyVec([Agg('tuple', 0, [ident('a'), INNER[ik]()]), Agg('tuple', 0, [ident('b'), tparam('T')]), Agg('tuple', 0, [ident('c'), tparam('T')])])]))
+        structs.keys.append(ident('H')); structs.vals.append(Agg(SD.key, 0, [ident('H'), PyVec([]), PyVec([Agg('tuple', 0, [ident('f'), app('P', 'TStruct', ARG[ak]())])])]))
+        un = T('TUnit')
+        unit = Agg(CE.key, CE.vindex('EPrim'), [{'value': Agg(PR.key, PR.vindex('Unit'), [ms.UNIT]), 'ty': un}[f[0]] for f in CE.variants[CE.vindex('EPrim')].fields])
+        main = Agg(CF.key, 0, [{'name': mkstr('main'), 'generics': PyVec([]), 'params': PyVec([]), 'ret_ty': un, 'body': unit}[fl[0]] for fl in CF.variants[0].fields])
+        res = ex.call('mono::mono', [genv, Agg(CFILE.key, 0, [PyVec([main])])])
+        menv = res.fields[1]; defs = {}
+        g2 = fld(ME, menv, 'genv'); t2 = fld(GE, g2, 'type_env')
+        for src_ in (fld(TEV, t2, 'structs'), fld(ME, menv, 'mono_structs')):
+            for k, v in zip(src_.keys, src_.vals):
+                if len(v.fields[1].items) == 0: defs[ms.pystr(k.fields[0])] = [(ms.pystr(f_.fields[0].fields[0]), shape(f_.fields[1], TY)) for f_ in v.fields[2].items]
+        return ik, ak, defs
+    res = e2.explore(r, W, entry, [])
+    for p in res:
+        r.cases += 1
+        if p.kind != 'ok':
+            if not any(f.key == 'panic' for f in r.findings): r.findings.append(Finding('panic', 'mono::mono panics: %s' % str(p.value)[:200], {}, False, 'not replayed'))
+            continue
+        ik, ak, defs = p.value; r.nontrivial += 1
+        hf = dict(defs.get('H', [])).get('f'); pname = hf.get('name') if hf and hf['k'] == 'TStruct' else None
+        pd = dict(defs.get(pname, [])) if pname else None
+        if pd is None:
+            if not r.findings: r.findings.append(Finding('instance-definition-missing', 'H.f has the type %s after mono::mono; no monomorphic definition of P[%s] is reachable from it (definitions: %s)' % (json.dumps(hf), ak, sorted(defs)), {'inner': ik, 'arg': ak}, False, 'not replayed'))
+            continue
+        if pd.get('b') != pd.get('c') or (ak == 'int32' and pd.get('b', {}).get('k') != 'TInt32') or (ak == 'string' and pd.get('b', {}).get('k') != 'TString') or (ak == 'Opt[int32]' and pd.get('b', {}).get('k') != 'TEnum'):
+            if any(f.key == 'instance-field-gets-foreign-argument' for f in r.findings): continue
+            ok_, detail = replay_instance_fields(ik, ak)
+            r.findings.append(Finding('instance-field-gets-foreign-argument', 'P[T] { a: %s, b: T, c: T } at T = %s: the monomorphic definition %s has b: %s, c: %s' % (ik, ak, pname, json.dumps(pd.get('b')), json.dumps(pd.get('c'))), {'inner': ik, 'arg': ak}, ok_, detail))
+        elif len(r.samples) < 3: r.samples.append({'inner': ik, 'arg': ak, 'instance': pname, 'b': pd.get('b')})
+
+def replay_instance_fields(ik, ak):
+    src = 'enum Opt[T] { Non, Som(T) }\nstruct P[T] { a: %s, b: T, c: T }\nstruct H { f: P[%s] }\nfn mk() -> H { mk() }\nfn main() -> unit { let x = mk(); () }\n' % (ik, ak)
+    d = tempfile.mkdtemp(prefix='vf-c07i-')
+    try:
+        open(os.path.join(d, 'main.gom'), 'w').write(src)
+        out = subprocess.run([build.compiler_bin(), 'run', '--dump-go', os.path.join(d, 'main.gom')], capture_output=True, text=True, timeout=60).stdout
+    finally: shutil.rmtree(d, ignore_errors=True)
+    import re as _re
+    m_ = _re.search(r'type (P__\w*) struct \{(.*?)\n\}', out, _re.S)
+    fields = [l.split() for l in m_.group(2).strip().splitlines()] if m_ else []
+    tys = {f[0]: ' '.join(f[1:]) for f in fields if f}
+    return bool(m_) and tys.get('b') != tys.get('c') or (bool(m_) and ak == 'int32' and tys.get('b') != 'int32'), 'goml `%s`: the emitted Go declares %s with %s' % (src.replace('\n', ' | '), m_.group(1) if m_ else 'no P instance', tys)
+
+def obligations_instance_fields():
+    return [Ob('O7.9-instance-definition-fields', 'the definition generated for an instantiated generic struct has its own type arguments in every field', ob_instance_fields, ('quick', 'thorough'), 3, {})]
